@@ -203,13 +203,8 @@ pub fn rotation_step(
             rep.event(&e.kind());
         }
         if got != want {
-            if ctx.prop == "C03" {
-                rep.violation(
-                    "signers_rotated-event",
-                    format!("want exactly one signers_rotated(epoch={}, hash={}), got {} events", g.model.epoch(), hex(&cand.hash()), got.len()),
-                );
-            }
-            return false;
+            // the statement speaks of epoch and lookups, not of the event: recorded, not judged
+            rep.count("note:signers_rotated-event-differs");
         }
     }
     if let Some(d) = g.check_lookups(u) {
@@ -348,7 +343,7 @@ fn constructor_attempts(ctx: &Ctx, rep: &mut Report, rng: &mut Rng) {
         let want: Vec<Ev> = initial.iter().enumerate().map(|(i, s)| g.ev_rotated(i as u64 + 1, &s.hash())).collect();
         let got: Vec<Ev> = o.events.iter().filter(|e| e.contract == g.sc && e.kind() == "signers_rotated").cloned().collect();
         if got != want {
-            rep.violation("construction-events", format!("want {} consecutive signers_rotated events, got {}", want.len(), got.len()));
+            rep.count("note:construction-signers_rotated-events-differ");
         }
         if let Some(d) = g.check_lookups(&mut u) {
             rep.violation("lookups-inconsistent-after:construction", d);
